@@ -71,3 +71,20 @@ package dockerlog
 
 //@ func ParseLog
 //@   ensures[fields] typeis[*streamIter](ret0) && same(as[*streamIter](ret0).rd, f) && as[*streamIter](ret0).err == nil && same(as[*streamIter](ret0).resource, resource)
+
+// ---- C02 / C20: container labels and selection
+
+//@ scope dockerlog.go
+
+//@ func getLabels
+//@   capture k = call(otelstorage.KeyToLabel, 0)
+//@   loop 0 entry_ensures[built-in-labels] labels != nil && labels["container_id"] == ctr.ID && labels["container_image"] == ctr.Image && labels["container_image_id"] == ctr.ImageID && labels["container_command"] == ctr.Command && labels["container_state"] == ctr.State && labels["container_status"] == ctr.Status && labels["container_created"] == strconv.FormatInt(ctr.Created, 10)
+//@   loop 0 entry_ensures[name-without-slash] len(ctr.Names) > 0 ==> labels["container"] == strings.TrimPrefix(ctr.Names[0], "/") && labels["container_name"] == labels["container"]
+//@   loop 0 entry_ensures[no-name] len(ctr.Names) == 0 ==> labels["container"] == "" && labels["container_name"] == ""
+//@   ensures[returns-that-map] ret0.labels != nil
+//@   loop 0 modifies labels[*]
+//@   loop 0 invariant labels != nil
+//@   loop 0 body_ensures[docker-label-under-sanitised-name] k_called && k_a0 == label && has(labels, k_r0) && labels[k_r0] == value
+
+//@ func (*Querier).Capabilities
+//@   ensures[line-filters-never-offloaded] caps.Line == 0
